@@ -204,6 +204,39 @@ def api(cp):
         bounds="heading text 'a'+chr(cp)+'b'",
         what="page_by spanning heading text path",
     ))
+    # O7: construction-time text handling of footnote/source (entries joined by \line, nothing else touched)
+    obs.append(Ob(
+        oid="O7.construct_text", sig="cp: int, two: bool", pre=CP_PRE, timeout=T,
+        header=HDR + "from rtflite.input import RTFTableTextComponent\n",
+        body=r"""
+    entry = "a" + chr(cp) + "b"
+    me = NS(text=[entry, "z"] if two else [entry])
+    RTFTableTextComponent._process_text_conversion(me)
+    return me.text == (entry + chr(92) + "line z" if two else entry)
+""",
+        funcs=["rtflite.input:RTFTableTextComponent._process_text_conversion"],
+        bounds="one or two text entries, the first 'a'+chr(cp)+'b' with a symbolic code point",
+        what="footnote/source text given as a list is joined with \\line between the entries; every character inside an entry - "
+             "Unicode line and paragraph separators included - is kept as it is"))
+    # boundary twins: the same emitters with cp chosen (symbolically) among the arithmetic boundaries of the escape rule.  They
+    # stay decidable when a change routes a position through code CrossHair can only follow with a realised character
+    # (bytes codecs, C helpers), where the one-symbolic-code-point obligation above degrades to INCONCLUSIVE.
+    import copy
+    import dataclasses
+    BOUNDARY = [0x20, 0x7E, 0xA0, 0xFF, 0x100, 0x7FF, 0x800, 0x2028, 0x2029, 0x7FFF, 0x8000, 0x8001, 0xD7FF, 0xE000, 0xFFFD, 0xFFFF,
+                0x10000, 0x10001, 0x103FF, 0x10400, 0x1F600, 0x10FFFF]
+    for ob in list(obs):
+        if ob.oid in ("O3.subline_heading", "O4.encode_text_line", "O4.encode_text_paragraph", "O5.cell_encode", "O6.spanning_row", "O7.construct_text"):
+            twin = dataclasses.replace(ob) if dataclasses.is_dataclass(ob) else copy.copy(ob)
+            twin.oid = ob.oid + ".boundaries"
+            twin.sig = ob.sig.replace("cp: int", "k: int")
+            twin.pre = ["0 <= k < %d" % len(BOUNDARY)]
+            twin.header = ob.header + "\nfrom vf.hlib import pick as _pick\nBOUNDARY = %r\n" % (BOUNDARY,)
+            twin.body = "\n    cp = _pick(BOUNDARY, k)" + ob.body
+            twin.api = False
+            twin.bounds = ob.bounds + "; cp chosen by the solver among %d boundary code points of the escape arithmetic (ASCII/Latin-1/BMP " \
+                                      "edges, U+2028/9, 0x7FFF/0x8000/0x8001, surrogate neighbours, 0xFFFF/0x10000, astral edges)" % len(BOUNDARY)
+            obs.append(twin)
     meta = {
         "explanation": "CrossHair (z3) executes the real escape kernel and the real emitters that wrap it with ONE "
                        "SYMBOLIC CODE POINT cp ranging over every Unicode scalar value (C0/C1 and the RTF "
